@@ -15,3 +15,4 @@ def run(ck):
     factors.r10_composite_bodies(ck, P)      # C02-R10: fast paths registered for alpha-less sources must treat them as opaque in every lane
     codec.r15_alphaless_fetchers_force_alpha(ck, P, 'C09-R7')   # an alpha-less source reads as opaque for every pixel of the scanline
     codec.r12_simd_helpers(ck, P, 'C09-R8')                     # the widening helpers the fetchers delegate to
+    opacity.r9_solid_substitution_excludes_kernels(ck, P)
